@@ -13,7 +13,8 @@ from vlib import doubles
 
 BASE = ('SNMPv2-SMI', 'SNMPv2-TC', 'SNMPv2-CONF')
 STATUSES = ('compiled', 'untouched', 'failed', 'unprocessed', 'missing', 'borrowed')
-TEXT_FAULTS = ('empty', 'comments', 'truncated', 'lexerr', 'synerr', 'unresolved', 'dupsym', 'untyped')
+TEXT_FAULTS = ('empty', 'comments', 'truncated', 'lexerr', 'synerr', 'unresolved', 'dupsym', 'untyped',
+               'macro_open', 'choice_open')
 # texts that parse and pass the symbol table but cannot be code-generated (semantic defects)
 CODEGEN_FAULTS = ('ghost', 'ghostdefval', 'oidloop', 'oidself')
 # faults that make the *whole file* unusable before any module is registered
@@ -64,6 +65,13 @@ def module_text(mod, imports, src, variant='ok', tag_arc=1, extra_modules=()):
         # an object whose SYNTAX names a type defined nowhere: the symbol stays postponed for good
         text = head + body + ('orphan OBJECT-TYPE SYNTAX NoSuchType MAX-ACCESS read-only STATUS current '
                               'DESCRIPTION "x" ::= { %s 8 }\nEND\n' % node_name(mod))
+    elif variant == 'macro_open':
+        # the text ends inside the body of a standard MACRO: the lexer is in its exclusive macro state
+        text = head + body + 'OBJECT-TYPE MACRO ::= BEGIN\n TYPE NOTATION ::= "SYNTAX" type\n VALUE NOTATION ::= value\n'
+        return text
+    elif variant == 'choice_open':
+        text = head + body + 'OpenChoice ::= CHOICE { first INTEGER,\n second OCTET STRING\n'
+        return text
     elif variant == 'dupsym':
         text = head + body + node + 'END\n'
     elif variant == 'ghost':
